@@ -422,6 +422,47 @@ func extractC12() *lean {
 			return true
 		})
 	}
+	// the "count" loop: `if i == *submissionRequirement.Count { break }` as LAST statement of the range body, the compared
+	// expression is a plain counter variable (not len(returnVCs): a nested member flattens to several credentials), the range
+	// key is unused and the counter is incremented exactly in the `!member.empty()` branch that takes the member
+	countCountsTaken := false
+	if fd := funcDecl(srf, "apply"); fd != nil {
+		ast.Inspect(fd, func(n ast.Node) bool {
+			rs, ok := n.(*ast.RangeStmt)
+			if !ok || len(rs.Body.List) != 2 {
+				return true
+			}
+			test, ok := rs.Body.List[1].(*ast.IfStmt)
+			if !ok || !strings.Contains(exprString(test.Cond), "== *submissionRequirement.Count") {
+				return true
+			}
+			counter := ""
+			if be, ok := test.Cond.(*ast.BinaryExpr); ok && be.Op == token.EQL && exprString(be.Y) == "*submissionRequirement.Count" {
+				if id, ok := be.X.(*ast.Ident); ok {
+					counter = id.Name
+				}
+			}
+			brk := false
+			if len(test.Body.List) > 0 {
+				if br, ok := test.Body.List[len(test.Body.List)-1].(*ast.BranchStmt); ok && br.Tok == token.BREAK {
+					brk = true
+				}
+			}
+			keyUnused := rs.Key == nil || exprString(rs.Key) == "_"
+			take, ok := rs.Body.List[0].(*ast.IfStmt)
+			incInTake := false
+			if ok && exprString(take.Cond) == "!member.empty()" && take.Else == nil {
+				for _, st := range take.Body.List {
+					if inc, ok := st.(*ast.IncDecStmt); ok && inc.Tok == token.INC && exprString(inc.X) == counter {
+						incInTake = true
+					}
+				}
+			}
+			countCountsTaken = counter != "" && keyUnused && incInTake && brk
+			return true
+		})
+	}
+	l.def("applyCountCountsTakenMembers", "Bool", fmt.Sprint(countCountsTaken), countCountsTaken)
 	l.def("applyMaxCountsTakenMembers", "Bool", fmt.Sprint(countsTaken), countsTaken)
 	l.def("applyMaxTestBeforeTake", "Bool", maxFirst, maxFirst)
 	l.def("applyRejectsMinAboveMax", "Bool", minMax, minMax)
